@@ -275,46 +275,12 @@ fn c13_roundtrip_three_parameters_b__rest() {
     core::mem::forget(buf0);
 }
 
-// @check props=C13 tier=quick known=KF-C13-1
-// @desc KF-C13-1: a value of 65536 bytes (e.g. user/topic/group data "larger than 65 535 bytes", named by the property) written by write_cdr_parameter must be found again by the decoder with its bytes intact, or be refused - expected to FAIL: `(len) as u16` silently stores length 0 in the 16-bit length field, the decoder sees an empty parameter and then parses the value bytes as further parameters
-// @bounds one parameter, id symbolic (not 1, not 0x0300), value = 65536 bytes (first four symbolic, rest zero), followed by a second 4-byte parameter and the sentinel. unwind 14
-// @assume trigger KF-C13-1: padded value length >= 65536 (here exactly 65536)
-// @enc dcps::data_representation_builtin_endpoints::rtps_data_representation_serialization::ParameterListSerializer::write_cdr_parameter
-// @enc dcps::data_representation_builtin_endpoints::rtps_data_representation::ParameterList::get_optional_parameter
-#[kani::proof]
-#[kani::unwind(14)]
-fn c13_length_field_truncation__known() {
-    let pid: i16 = kani::any();
-    let pid2: i16 = kani::any();
-    kani::assume(pid != PID_SENTINEL && pid != HEADER_ALIAS_LE && pid2 != PID_SENTINEL && pid2 != HEADER_ALIAS_LE && pid2 != pid);
-    let head: [u8; 4] = kani::any();
-    let tail: [u8; 4] = kani::any();
-    let mut value: Vec<u8> = alloc::vec![0u8; 65536];
-    value[0] = head[0];
-    value[1] = head[1];
-    value[2] = head[2];
-    value[3] = head[3];
-    let mut buf: Vec<u8> = Vec::with_capacity(65536 + 64);
-    {
-        let mut ser = ParameterListSerializer::new(&mut buf);
-        ser.write_header();
-        ser.write_cdr_parameter(pid, value.as_slice());
-        ser.write_cdr_parameter(pid2, &tail[..]);
-        ser.write_sentinel();
-    }
-    kani::cover!(buf.len() == 4 + 4 + 65536 + 8 + 4, "all 65536 value bytes were written");
-    let len_field = u16::from_le_bytes([buf[6], buf[7]]) as usize;
-    assert!(len_field == 65536, "C13: the length field of a written parameter equals its (padded) value length");
-    let pl = match ParameterList::new(buf.as_slice()) {
-        Ok(pl) => pl,
-        Err(_) => return,
-    };
-    let got = pl.get_optional_parameter::<Raw>(pid, absent());
-    assert!(matches!(&got, Ok(r) if r.len == CAP && r.bytes[0] == head[0] && r.bytes[3] == head[3]), "C13: a parameter of 65536 bytes is found with its bytes intact");
-    let got2 = pl.get_optional_parameter::<Raw>(pid2, absent());
-    assert!(matches!(&got2, Ok(r) if r.len == 4 && r.bytes[0] == tail[0] && r.bytes[3] == tail[3]), "C13: the parameter after a 65536-byte parameter is still found");
-    core::mem::forget((buf, value));
-}
+// KF-C13-1 (length field truncation, `(len) as u16` in write_cdr_parameter for values > 65532 bytes) is NOT
+// demonstrated by a harness: passing a 65536-byte slice to the real write_cdr_parameter makes CBMC 6.11
+// crash (status 139, stack exhaustion) before symbolic execution with the default 8 MB stack; with an
+// unlimited stack symbolic execution of the 64 KiB copy alone takes 405 s and the run does not finish in
+// 600 s.  The computation is not factored into a function that could be called with a symbolic length.
+// It is reported as a finding by inspection (known_findings.d/qos.json, status "reported").
 
 // @check props=C13 tier=quick known=KF-C13-2
 // @desc KF-C13-2: a big-endian parameter list (PL_CDR_BE, header 00 02 00 00 - what other vendors' big-endian participants send) holding PID_PARTICIPANT_LEASE_DURATION (0x0002) with a symbolic duration must decode to that duration - expected to FAIL: PidIterator starts at offset 0 and parses the 4-byte encapsulation header itself as a parameter (id 0x0002, length 0), so the lookup of id 2 returns the empty pseudo-parameter and the Duration decoder fails with NotEnoughData (SpdpDiscoveredParticipantData::from_bytes therefore rejects every big-endian participant announcement)
@@ -381,3 +347,4 @@ fn c13_big_endian_lookup__rest() {
     kani::cover!(q == pid && pid < 0, "vendor-specific id found in a big-endian list");
     kani::cover!(q != pid, "absent id in a big-endian list");
 }
+
